@@ -72,6 +72,9 @@ def gen_lines_for(rng, target_consumed, subsampling, ncols=None, malformed=0.0, 
     raise RuntimeError('could not build workload')
 
 
+REFJSON_HEURISTICS = ('MI-numba-randomized', 'MI-numba-3mr', 'Constant')
+
+
 def gen_geometry(rng, profile):
     """(minibatch_size, subsampling, target consumed rows)"""
     s = rng.choice(profile.get('subsampling', [1, 1, 2, 3, 4]))
@@ -131,6 +134,15 @@ def gen_spec(rng, profile):
         'oracles': list(profile['oracles']),
         'fs': {'write_through': rng.random() < 0.6, 'short_reads': rng.random() < profile.get('short_reads', 0.0)},
     }
+    if profile.get('ref_json') and heuristic in REFJSON_HEURISTICS and len(wl['header']) >= 3 and rng.random() < profile['ref_json']:
+        # a hand-made reference model: single features, combined features ('a,b', any order, any arity) and fields
+        nonlabel = [h for h in wl['header'] if h != wl['label']]
+        feats = [h for h in nonlabel if rng.random() < 0.5]
+        for _ in range(rng.choice([0, 1, 1, 2, 3])):
+            k = min(len(nonlabel), rng.choice([2, 2, 2, 3]))
+            feats.append(','.join(rng.sample(nonlabel, k)))
+        rng.shuffle(feats)
+        spec['ref_json'] = {'desc': {'features': feats, 'fields': [h for h in nonlabel if rng.random() < 0.5]}}
     if rng.random() < profile.get('more_runs', 0.0) and len(wl['header']) >= 2:
         # a long-lived interpreter runs a second task on the same data: another label column, maybe another heuristic / batch size
         other_cols = [h for h in wl['header'] if h != wl['label']]
@@ -141,6 +153,8 @@ def gen_spec(rng, profile):
             c2['minibatch_size'] = max(2, m // 2)
         if rng.random() < 0.3:
             c2['target_ranking_only'] = rng.choice(['True', 'False'])
+        if spec.get('ref_json') and c2.get('heuristic') not in REFJSON_HEURISTICS:
+            c2.pop('heuristic', None)       # the reference-model knob stays with the heuristics that accept its input shape
         spec['more_runs'] = [{'cli': c2}]
     if profile.get('post'):
         profile['post'](rng, spec)
@@ -396,7 +410,7 @@ def spec_summary(spec):
     wl = spec['workload']
     return {'rows': len(wl['lines']), 'columns': wl['header'], 'label': wl['label'], 'cli': spec['cli'], 'service_mode': spec.get('service_mode'),
             'poison': (spec.get('poison') or {}).get('name'), 'fs': spec.get('fs'), 'first_lines': wl['lines'][:3], 'phases': spec.get('phases'),
-            'further_tasks_in_same_process': [m.get('cli') for m in spec.get('more_runs') or []]}
+            'further_tasks_in_same_process': [m.get('cli') for m in spec.get('more_runs') or []], 'reference_model_JSON': spec.get('ref_json')}
 
 
 # ------------------------------------------------------------------------------------ generic runner
